@@ -356,6 +356,12 @@ structure State (σ : Type) where
   /-- `self.minus_file`, `self.plus_file` (`none` = `/dev/null`) -/
   minusName : Option (List Char)
   plusName : Option (List Char)
+  /-- what `get_filename_from_marker_line` makes of the raw `--- ` / `+++ ` line (cut at the
+  first TAB, then at spaces): differs from the parsed path for names with spaces or quotes -/
+  minusMarker : Option (List Char)
+  plusMarker : Option (List Char)
+  /-- `self.source == Source::DiffUnified` (plain `diff -u` input, not git) -/
+  unified : Bool
   /-- `painter.minus_lines ++ painter.plus_lines`: per buffered line, what the property expects -/
   buffered : List (Hl σ)
   /-- specification only: the language of the current file's name, lines of the current hunk so far -/
@@ -373,12 +379,16 @@ def evalGuard {σ : Type} (s : State σ) : Guard → Bool
   | .always => true
   | .ifHighlighterNone => s.hl.isNone
   | .ifPlusNotDevNull => s.plusName.isSome
+  | .ifSourceDiffUnified => s.unified
+  | .ifSourceNotDiffUnified => !s.unified
 
 /-- One painter statement. `lang` = `Painter::get_syntax` as a function of the file name. -/
 def execStmt {σ : Type} (lang : Option (List Char) → σ) (s : State σ) :
     Stmt → State σ × List (Painted σ)
-  | .setSyntax .minus => ({ s with syn := lang s.minusName }, [])
-  | .setSyntax .plus => ({ s with syn := lang s.plusName }, [])
+  | .setSyntax .minus .parsedPath => ({ s with syn := lang s.minusName }, [])
+  | .setSyntax .plus .parsedPath => ({ s with syn := lang s.plusName }, [])
+  | .setSyntax .minus .markerLine => ({ s with syn := lang s.minusMarker }, [])
+  | .setSyntax .plus .markerLine => ({ s with syn := lang s.plusMarker }, [])
   | .paintBuffered =>
     let r := paintBuf s.hl s.buffered
     ({ s with hl := r.1, buffered := [] }, r.2)
@@ -396,10 +406,11 @@ def execStmts {σ : Type} (lang : Option (List Char) → σ) :
     else execStmts lang s rest
 
 inductive Event where
-  /-- `--- path`, `rename from`, `copy from` (`none` = `/dev/null`) -/
-  | fileMinus (name : Option (List Char))
+  /-- `--- path`, `rename from`, `copy from`: the parsed path (`none` = `/dev/null`) and what the
+  raw line cut at TAB/spaces gives -/
+  | fileMinus (name : Option (List Char)) (marker : Option (List Char))
   /-- `+++ path`, `rename to`, `copy to` -/
-  | filePlus (name : Option (List Char))
+  | filePlus (name : Option (List Char)) (marker : Option (List Char))
   /-- first line of a hunk arrives: `emit_hunk_header_line` -/
   | hunkHeader
   /-- a `-`/`+` line: buffered (after a flush when a new sub-hunk starts or the buffer is full) -/
@@ -412,9 +423,11 @@ inductive Event where
 
 def step {σ : Type} (lang : Option (List Char) → σ) (s : State σ) :
     Event → State σ × List (Painted σ)
-  | .fileMinus n => execStmts lang { s with minusName := n, cur := lang n } minusHeaderStmts
-  | .filePlus n =>
-    execStmts lang { s with plusName := n, cur := if n.isSome then lang n else s.cur } plusHeaderStmts
+  | .fileMinus n mk =>
+    execStmts lang { s with minusName := n, minusMarker := mk, cur := lang n } minusHeaderStmts
+  | .filePlus n mk =>
+    execStmts lang { s with plusName := n, plusMarker := mk, cur := if n.isSome then lang n else s.cur }
+      plusHeaderStmts
   | .hunkHeader => execStmts lang { s with lineNo := 0 } hunkHeaderStmts
   | .changedLine fl =>
     let r := if fl then execStmt lang s .paintBuffered else (s, [])
@@ -434,9 +447,9 @@ def run {σ : Type} (lang : Option (List Char) → σ) :
     (r'.1, r.2 ++ r'.2)
 
 /-- `Painter::new`: default syntax, no highlighter, nothing buffered. -/
-def initial {σ : Type} (lang : Option (List Char) → σ) : State σ :=
-  { syn := lang none, hl := none, minusName := none, plusName := none, buffered := [],
-    cur := lang none, lineNo := 0 }
+def initial {σ : Type} (lang : Option (List Char) → σ) (unified : Bool) : State σ :=
+  { syn := lang none, hl := none, minusName := none, plusName := none, minusMarker := none,
+    plusMarker := none, unified := unified, buffered := [], cur := lang none, lineNo := 0 }
 
 /-- Where in a file section the input is. -/
 inductive Phase where
@@ -446,15 +459,17 @@ inductive Phase where
   deriving DecidableEq, Repr
 
 /-- Well-formed event sequences: hunk headers only after a file header line, hunk lines only
-after a hunk header. -/
-def wf : Phase → List Event → Bool
+after a hunk header. For plain `diff -u` input (`unified`) the name cut from the raw header line
+is assumed to be the parsed one (no spaces in the path); for git input nothing is assumed. -/
+def wf (unified : Bool) : Phase → List Event → Bool
   | _, [] => true
-  | _, .fileMinus _ :: rest => wf .header rest
-  | ph, .filePlus n :: rest => (n.isSome || ph != .start) && wf .header rest
-  | ph, .hunkHeader :: rest => ph != .start && wf .hunk rest
-  | ph, .changedLine _ :: rest => ph == .hunk && wf .hunk rest
-  | ph, .contextLine :: rest => ph == .hunk && wf .hunk rest
-  | ph, .flush :: rest => wf ph rest
+  | _, .fileMinus n mk :: rest => (!unified || mk == n) && wf unified .header rest
+  | ph, .filePlus n mk :: rest =>
+    (n.isSome || ph != .start) && (!unified || mk == n) && wf unified .header rest
+  | ph, .hunkHeader :: rest => ph != .start && wf unified .hunk rest
+  | ph, .changedLine _ :: rest => ph == .hunk && wf unified .hunk rest
+  | ph, .contextLine :: rest => ph == .hunk && wf unified .hunk rest
+  | ph, .flush :: rest => wf unified ph rest
 
 end Lifetime
 
